@@ -572,8 +572,6 @@ func (g *GoBackNConn) receivePacketsForever() error { // nolint:gocyclo
 			g.pongTicker.Pause()
 		}
 
-		g.resendTicker.Reset(g.timeoutManager.GetResendTimeout())
-
 		switch m := msg.(type) {
 		case *PacketData:
 			switch m.Seq == g.recvSeq {
@@ -661,6 +659,18 @@ func (g *GoBackNConn) receivePacketsForever() error { // nolint:gocyclo
 		case *PacketACK:
 			gotValidACK := g.sendQueue.processACK(m.Seq)
 			if gotValidACK {
+				// The peer acknowledged progress, so the rest of
+				// the queue gets a full resend timeout again. We
+				// only restart the resend timer here, and not on
+				// every packet we receive: steady inbound traffic
+				// (such as keepalive pings or data sent more often
+				// than the resend timeout) would otherwise keep
+				// postponing the retransmission of a lost packet
+				// for ever.
+				g.resendTicker.Reset(
+					g.timeoutManager.GetResendTimeout(),
+				)
+
 				// Send a signal to indicate that new
 				// ACKs have been received.
 				select {
